@@ -331,7 +331,24 @@ def rule_w1(repo, res, which=("quoted", "symbol", "flags")):
     from . import lang
     # the wrap call itself
     fmt_c, fmt = repo.resolve_method("PVLEncoder", "format")
-    wraps = [n for n in ast.walk(fmt) if isinstance(n, ast.Call) and norm(n.func) in ("textwrap.wrap", "textwrap.fill")]
+    # textwrap.wrap(...) / textwrap.fill(...) or a textwrap.TextWrapper(...) object: the same keyword options (same defaults)
+    WR = ("textwrap.wrap", "textwrap.fill", "textwrap.TextWrapper", "TextWrapper")
+    wraps = [n for n in ast.walk(fmt) if isinstance(n, ast.Call) and norm(n.func) in WR]
+    if not wraps:
+        # a TextWrapper configured elsewhere in the class (class body or constructor) and used by format() as self.<attr>.wrap
+        used = {n.func.value.attr for n in ast.walk(fmt) if isinstance(n, ast.Call) and isinstance(n.func, ast.Attribute)
+                and n.func.attr in ("wrap", "fill") and isinstance(n.func.value, ast.Attribute) and norm(n.func.value.value) == "self"}
+        for k in [x for x in repo.mro("PVLEncoder") if not x.startswith("ext:")]:
+            ci_ = repo.classes[k]
+            for name, val in ci_.aliases.items():
+                if name in used and isinstance(val, ast.Call) and norm(val.func) in WR:
+                    wraps.append(val)
+            init_ = ci_.methods.get("__init__")
+            if init_ is not None:
+                for a_ in ast.walk(init_):
+                    if isinstance(a_, ast.Assign) and isinstance(a_.value, ast.Call) and norm(a_.value.func) in WR \
+                            and any(isinstance(t_, ast.Attribute) and t_.attr in used for t_ in a_.targets):
+                        wraps.append(a_.value)
     if "flags" in which:
         res.floor("textwrap.wrap calls in format()", len(wraps), 1)
         for wcall in wraps:
